@@ -65,26 +65,27 @@ def add_corners_if_it_is_an_uri(a_candidate_uri):
 
 
 def decide_literal_type(a_literal, base_namespace=None):
-    if there_is_arroba_after_last_quotes(a_literal):
+    # The type is decided looking just at what follows the closing quotes (lang tag or datatype),
+    # never at the content of the literal.
+    suffix = a_literal[a_literal.rfind('"') + 1:].strip()
+    if suffix.startswith("@"):
         return LANG_STRING_TYPE
-    elif "\"^^" not in a_literal:
+    elif not suffix.startswith("^^"):
         return STRING_TYPE
-    elif "xsd:" in a_literal:
-        return XSD_NAMESPACE + a_literal[a_literal.find("xsd:") + 4:]
-    elif "rdf:" in a_literal:
-        return RDF_SYNTAX_NAMESPACE + a_literal[a_literal.find("rdf:")+ 4:]
-    elif "dt:" in a_literal:
-        return DT_NAMESPACE + a_literal[a_literal.find("dt:")+ 3:]
-    elif "geo:" in a_literal:
-        return OPENGIS_NAMESPACE + a_literal[a_literal.find("geo:") + 4:]
-    elif XSD_NAMESPACE in a_literal or RDF_SYNTAX_NAMESPACE in a_literal \
-            or DT_NAMESPACE in a_literal or OPENGIS_NAMESPACE in a_literal:
-        return a_literal[a_literal.find("\"^^")+4:-1]
-    elif a_literal.strip().endswith(">"):
-        candidate_type = a_literal[a_literal.find("\"^^") + 4:-1]  # plain uri, no corners
+    suffix = suffix[2:]
+    if suffix.startswith("<") and suffix.endswith(">"):
+        candidate_type = suffix[1:-1]  # plain uri, no corners
         if base_namespace is not None and not candidate_type.startswith("http"):
             return base_namespace + candidate_type
         return candidate_type
+    elif suffix.startswith(XSD_PREFIX + ":"):
+        return XSD_NAMESPACE + suffix[len(XSD_PREFIX) + 1:]
+    elif suffix.startswith(RDF_PREFIX + ":"):
+        return RDF_SYNTAX_NAMESPACE + suffix[len(RDF_PREFIX) + 1:]
+    elif suffix.startswith(DT_PREFIX + ":"):
+        return DT_NAMESPACE + suffix[len(DT_PREFIX) + 1:]
+    elif suffix.startswith(OPENGIS_PREFIX + ":"):
+        return OPENGIS_NAMESPACE + suffix[len(OPENGIS_PREFIX) + 1:]
     else:
         raise RuntimeError("Unrecognized literal type:" + a_literal)
 
